@@ -16,6 +16,7 @@ type Mix struct {
 	Snapshot, SnapRead, SnapClose, SnapRevert, SnapOfSnap, SnapMutate               int
 	SetCollNew, SetCollExisting, RemoveColl, GetColl, FlushRevert, CollWrite, Close int
 	CopyTo                                                                          int
+	PinVisit, ResumeVisit                                                           int
 }
 
 // HistCfg describes how a history is generated.
@@ -180,9 +181,14 @@ func (h *Hist) Step() {
 	}
 	w := []int{mx.Set, mx.SetInvalid, mx.Delete, mx.Get, mx.GetItem, mx.Exist, mx.MinMax, mx.Totals, mx.Visit, mx.Iter, mx.Len,
 		mx.Flush, mx.Evict, mx.Reopen, mx.Snapshot, mx.SnapRead, mx.SnapClose, mx.SnapRevert, mx.SnapOfSnap, mx.SnapMutate,
-		mx.SetCollNew, mx.SetCollExisting, mx.RemoveColl, mx.GetColl, mx.FlushRevert, mx.CollWrite, mx.Close, mx.CopyTo}
+		mx.SetCollNew, mx.SetCollExisting, mx.RemoveColl, mx.GetColl, mx.FlushRevert, mx.CollWrite, mx.Close, mx.CopyTo, mx.PinVisit, mx.ResumeVisit}
 	name := h.liveName()
-	switch r.WeightedPick(w) {
+	op := r.WeightedPick(w)
+	switch op {
+	case 13, 24, 26: // re-open, FlushRevert, Close: no reader may be in flight on the old handles
+		e.ResumeAll()
+	}
+	switch op {
 	case 0: // Set
 		if name == "" {
 			return
@@ -378,6 +384,22 @@ func (h *Hist) Step() {
 		h.Feat["close"] = true
 	case 27:
 		e.CopyTo(-1, r.Range(-1, 5))
+	case 28:
+		if name != "" && e.OpenPins() < 3 {
+			n := len(e.M.Live.Colls[name].Items)
+			if n > 0 {
+				e.PinVisit(name, r.Bool(), r.Bool(), r.Intn(n))
+				h.Feat["pinvisit"] = true
+			}
+		}
+	case 29:
+		for i, p := range e.Pins {
+			if !p.Done && r.P(60) {
+				e.ResumeVisit(i)
+				h.Feat["resumevisit"] = true
+				break
+			}
+		}
 	}
 }
 
@@ -399,6 +421,7 @@ func (h *Hist) Run() {
 		h.Step()
 		h.E.AfterStep()
 	}
+	h.E.ResumeAll()
 }
 
 // SeedGlobalRand makes gkvlite's own random choices replayable.
